@@ -3,7 +3,7 @@ package harness
 import (
 	"errors"
 	"fmt"
-	"sort"
+	"regexp"
 	"strings"
 	"sync"
 	"sync/atomic"
@@ -175,6 +175,26 @@ func genFaultChain(t *rapid.T) *Scenario {
 	return w.Scenario()
 }
 
+var balanceCol = regexp.MustCompile(`\bp?[a-z]{2,5}_balance\b`)
+
+// siteClass groups fault sites for the stratified sample of the quick tier: upstream request
+// kind, or SQL operation + statement text (asset columns folded), so that every distinct
+// statement of the block pipeline — not just every kind of call — gets its fault.
+func siteClass(s faultSite) string {
+	f := strings.Fields(s.Desc)
+	if len(f) == 0 {
+		return s.Layer
+	}
+	if s.Layer == "up" {
+		return s.Layer + ":" + f[0]
+	}
+	sql := balanceCol.ReplaceAllString(strings.Join(f[1:], " "), "T_balance")
+	if len(sql) > 70 {
+		sql = sql[:70]
+	}
+	return s.Layer + ":" + f[0] + ":" + sql
+}
+
 func checkFault(c *faultCase, ref Dump) (msg string, known string, fr *faultRun) {
 	dir, done := caseDir()
 	defer done()
@@ -247,13 +267,14 @@ func TestC10(t *testing.T) {
 			byClass := map[string][]faultSite{}
 			var classes []string
 			for _, i := range idx {
-				c := todo[i].Layer + ":" + strings.Fields(todo[i].Desc)[0]
+				c := siteClass(todo[i])
 				if _, ok := byClass[c]; !ok {
 					classes = append(classes, c)
 				}
 				byClass[c] = append(byClass[c], todo[i])
 			}
-			sort.Strings(classes)
+			// classes stay in their (drawn) order of first appearance: when there are more classes
+			// than the budget, which ones are left out differs from chain to chain
 			pick := make([]faultSite, 0, maxSites)
 			for len(pick) < maxSites {
 				progressed := false
